@@ -249,6 +249,79 @@ theorem loader_batches (bs : Nat) (order : List Nat) (item : Nat → α) :
     loader bs order item = (chunks bs order).map (List.map item) := by
   simp [loader, fetch_eq]
 
+/-! ### the epoch boundary: the next training set is wrapped with the UPDATED baseline -/
+
+/-- what `wrap_dataset` attaches, for a row-wise baseline policy: `g policy x`, or nothing during warm-up -/
+theorem blWrap_eq {π : Type} (pol : π → List α → List β) (g : π → α → β) (hp : ∀ p xs, pol p xs = xs.map (g p))
+    (bs : Nat) (hbs : 0 < bs) (b : BlState π) (ds : List α) :
+    blWrap pol bs b ds = ds.map (fun x => (x, if b.alphaNum > 0 then some (g b.policy x) else none)) := by
+  by_cases ha : b.alphaNum > 0
+  · simp only [blWrap, ha, if_true, rollout_aligned (pol b.policy) (g b.policy) (hp b.policy) bs hbs]
+    induction ds with
+    | nil => rfl
+    | cons x xs ih => simp [List.zipWith, ih]
+  · simp [blWrap, ha]
+
+/-- **C17 `epoch_end_wrap_uses_updated_baseline`**: at every epoch boundary of REINFORCE (statement order of
+`on_train_epoch_end` regenerated from the source: baseline callback first, then the data set reset), for every
+accept / reject decision, warm-up length, epoch, candidate and evaluation batch size: the value attached to item `x`
+of the NEW training set is the greedy reward of the baseline policy AFTER the callback on `x`, and the data set is
+wrapped iff the alpha AFTER the callback is positive. -/
+theorem epoch_end_wrap_uses_updated_baseline {π : Type} (accept : π → π → Bool) (nEpochs epoch : Nat) (cand : π)
+    (pol : π → List α → List β) (g : π → α → β) (hp : ∀ p xs, pol p xs = xs.map (g p)) (bs : Nat) (hbs : 0 < bs)
+    (b : BlState π) (newData : List α) :
+    let r := reinforceEpochEnd accept nEpochs epoch cand pol bs b newData
+    r.1 = blCallback accept nEpochs epoch cand b ∧
+    r.2 = newData.map (fun x => (x, if r.1.alphaNum > 0 then some (g r.1.policy x) else none)) := by
+  simp only [reinforceEpochEnd, epochEnd, Params.rfCallbackBeforeSuper, if_true, true_and]
+  exact blWrap_eq pol g hp bs hbs _ newData
+
+/-- the claim for the swapped order (data set reset first, callback afterwards) … -/
+def epoch_end_swapped_statement : Prop :=
+  ∀ (accept : Nat → Nat → Bool) (nEpochs epoch cand : Nat) (b : BlState Nat) (newData : List Nat),
+    let pol : Nat → List Nat → List Nat := fun p xs => xs.map (fun x => p + x)
+    let r := epochEnd false accept nEpochs epoch cand pol 2 b newData
+    r.2 = newData.map (fun x => (x, if r.1.alphaNum > 0 then some (r.1.policy + x) else none))
+
+/-- … is false: an accepted candidate 7 replaces baseline policy 0, but the new items carry the values of policy 0
+(and at the end of the warm-up epoch the new training set is not wrapped at all although alpha is now 1). -/
+theorem epoch_end_swapped_counterexample : ¬ epoch_end_swapped_statement := by
+  intro h
+  have := h (fun c p => decide (p < c)) 1 1 7 ⟨0, 1⟩ [10, 20, 30]
+  revert this; decide
+
+/-- with the swapped order the attached values are those of the PRE-update baseline -/
+theorem epoch_end_swapped_is_stale {π : Type} (accept : π → π → Bool) (nEpochs epoch : Nat) (cand : π)
+    (pol : π → List α → List β) (g : π → α → β) (hp : ∀ p xs, pol p xs = xs.map (g p)) (bs : Nat) (hbs : 0 < bs)
+    (b : BlState π) (newData : List α) :
+    (epochEnd false accept nEpochs epoch cand pol bs b newData).2 =
+      newData.map (fun x => (x, if b.alphaNum > 0 then some (g b.policy x) else none)) := by
+  simp only [epochEnd, Bool.false_eq_true, if_false]
+  exact blWrap_eq pol g hp bs hbs b newData
+
+/-- several boundaries in a row: after ANY sequence of (epoch, candidate) boundaries the current training set is the
+one wrapped by the CURRENT baseline state -/
+def runEpochs {π : Type} (accept : π → π → Bool) (nEpochs : Nat) (pol : π → List α → List β) (bs : Nat) :
+    BlState π × List (α × Option β) → List (Nat × π × List α) → BlState π × List (α × Option β)
+  | st, [] => st
+  | st, (e, cand, ds) :: rest =>
+    runEpochs accept nEpochs pol bs (reinforceEpochEnd accept nEpochs e cand pol bs st.1 ds) rest
+
+theorem runEpochs_current {π : Type} (accept : π → π → Bool) (nEpochs : Nat) (pol : π → List α → List β)
+    (g : π → α → β) (hp : ∀ p xs, pol p xs = xs.map (g p)) (bs : Nat) (hbs : 0 < bs)
+    (st : BlState π × List (α × Option β)) (hist : List (Nat × π × List α)) (hne : hist ≠ []) :
+    let r := runEpochs accept nEpochs pol bs st hist
+    ∃ ds : List α, r.2 = ds.map (fun x => (x, if r.1.alphaNum > 0 then some (g r.1.policy x) else none)) := by
+  induction hist generalizing st with
+  | nil => exact absurd rfl hne
+  | cons h rest ih =>
+    obtain ⟨e, cand, ds⟩ := h
+    cases rest with
+    | nil =>
+      exact ⟨ds, (epoch_end_wrap_uses_updated_baseline accept nEpochs e cand pol g hp bs hbs st.1 ds).2⟩
+    | cons h2 rest2 =>
+      exact ih _ (by simp)
+
 /-! ### histories on shared items (re-wrapping the same data set) -/
 
 theorem Dict.get?_set_same (d : Dict β) (k : String) (v : β) : (d.set k v).get? k = some v := by
@@ -374,6 +447,11 @@ example : evalCall (fun xs : List Nat => xs.map (fun x => (10 * x, List.replicat
 example : tddFetch [("id", [10, 11, 12, 13]), ("x", [5, 6, 7, 8])] 0 4 [0, 3, 1, 1] =
     [("id", [10, 13, 11, 11]), ("x", [5, 8, 6, 6])] := by decide
 example : fastGetitems [("id", [10, 11, 12, 13])] 0 [0, 2, 1, 3] = [("id", [10, 12, 11, 13])] := by decide
+
+/-- warm-up epoch 0 with `n_epochs = 1`, an accepted candidate: alpha becomes 1 and the new set carries the
+candidate's values -/
+example : reinforceEpochEnd (fun c p => decide (p < c)) 1 0 7 (fun p xs => xs.map (fun x => p + x)) 2 ⟨0, 0⟩ [10, 20, 30] =
+    (⟨7, 1⟩, [(10, some 17), (20, some 27), (30, some 37)]) := by decide
 
 /-- wrap with 100+i, read, wrap the same store with 200+i, read: the second pass sees 200+i -/
 example :
